@@ -68,6 +68,7 @@ def enc(v):
 def show(v):
     return repr(v) + str(v)
 nested = {"k": [strs2, dstr, (1, 2, {"z": [None, True, 1.5]})], "e": [], "s": "x" * 20}
+KINDS = [enum("red", "blue"), enum("n", "s", "w"), record(x = int)]
 "#;
 
 /// Same frozen call sites (`c.pop(k)`, `c.clear()`, ...) hit with receivers of a different type on
@@ -83,8 +84,12 @@ fn hammer_program(variant: u64, n: u64) -> String {
     // Types created by this thread while other threads create theirs (process-wide id generator):
     // values of one type must never pass for values of another, shared or own.
     let types = "OwnR = record(x = int, y = field(str, \"d\"))\nOwnE = enum(\"red\", \"green\", \"blue\")\nOwnR2 = record(x = int, y = field(str, \"d\"))\ndef typed_own(r: OwnR, e: OwnE) -> OwnR2:\n    return OwnR2(x = r.x + e.index)\nout.append([isinstance(mkrec(1), OwnR), isinstance(OwnR(x = 1), Rec), isinstance(OwnR(x = 1), OwnR2), OwnR(x = 1) == mkrec(1), OwnR(x = 1, y = \"1\") == OwnR2(x = 1, y = \"1\"), OwnE(\"red\") == Col(\"red\"), isinstance(OwnE(\"red\"), Col), isinstance(Col(\"red\"), OwnE), typed_own(OwnR(x = 2), OwnE(\"blue\")), repr(OwnR), repr(OwnE)])\n";
+    // Anonymous types of the shared module bound to a global of this thread's module: a frozen type
+    // must not take its name from whoever binds it first.
+    let v = variant % 5;
+    let anon = format!("T{v}Kind = KINDS[{}]\nemit(repr(T{v}Kind), [str(m) for m in T{v}Kind], T{v}Kind.type if hasattr(T{v}Kind, \"type\") else None, repr(KINDS))\nemit(T{v}Kind(\"{}\"))\n", v % 2, if v % 2 == 0 { "red" } else { "s" });
     format!(
-        "load(\"shared0\", \"m_pop\", \"m_clear\", \"m_index\", \"m_remove\", \"m_update\", \"enc\", \"show\", \"dstr\", \"strs2\", \"nested\", \"Rec\", \"Col\", \"mkrec\")\nout = []\n{types}for i in range({n}):\n{body}    out.append(enc(nested)[-24:])\n    out.append(show(nested)[:30])\n    out.append(enc(dstr)[:16])\nemit(out[:14], len(out), hash(str(out)))\n"
+        "load(\"shared0\", \"m_pop\", \"m_clear\", \"m_index\", \"m_remove\", \"m_update\", \"enc\", \"show\", \"dstr\", \"strs2\", \"nested\", \"Rec\", \"Col\", \"mkrec\", \"KINDS\")\nout = []\n{types}for i in range({n}):\n{body}    out.append(enc(nested)[-24:])\n    out.append(show(nested)[:30])\n    out.append(enc(dstr)[:16])\nemit(out[:14], len(out), hash(str(out)))\n{anon}"
     )
 }
 
